@@ -113,6 +113,10 @@ func genC18(t *rapid.T, tier string) (*World, any) {
 			p.File = "crs/regex-assembly/" + file
 			_ = rid
 		}
+		// the plain files exist as well: an argument that is wrongly taken for one of them succeeds instead of failing for lack of a file
+		for _, base := range []string{"942100", "942100-chain1", "942100-chain2", "942100-chain3"} {
+			w.Put("crs/regex-assembly/"+base+".ra", "base"+base+"\n")
+		}
 		// the file the argument would name literally exists, accepted or not, so that rejection is the parser's doing
 		lit := strings.TrimSuffix(p.Arg, ".ra")
 		if lit != "" && !strings.ContainsAny(lit, "/\x00") && strings.TrimSpace(lit) == lit {
@@ -278,6 +282,11 @@ func evalC18(sc *Scenario, sim *Sim) ([]Violation, bool, string) {
 	}
 	switch p.Mode {
 	case "arg":
+		if !p.Accept && p.Cmd == "format" && strings.Contains(p.Arg, "/") {
+			// for format an argument outside the rule grammar is an include NAME; what a name with a path separator means
+			// (it can walk from include/ back to an existing file) is not something the statement decides: not judged
+			break
+		}
 		if !p.Accept {
 			loud := r.Exit != 0
 			if p.Cmd == "format" {
